@@ -2,7 +2,7 @@ from .core import BASE_TRUST
 
 META = {
     "category": "proof",
-    "text": "Lean 4 theorems over a model of the comparison ladder, ternary logic, BETWEEN/IN/ANY/ALL/IS/CASE and arithmetic, for all coercion profiles and all lists (incl. the empty set a sub-query can produce: any_empty / all_empty), exactness of the float image of integers and of float +, -, * on integers below 2^53 (float_int_*_agree), casts; model tied to /repo by a differential correspondence run (direct library calls and SELECT text) on every run",
+    "text": "(the comparison core of lib/value/comparison.go is TRANSLATED into Lean on every run by extract/cmpfacts — compareInteger, compareFloat, the datetime / boolean / string rungs and the ladder order of CompareCombinedly, the six operators as functions of its result, the dispatch of Compare, Equivalent, the order of Identical — and proved equal to the model: gen_compareInteger_eq, gen_compareFloat_eq, gen_rung*_eq, cmp_eq_gen, gen_ops_eq_model, gen_dispatch, gen_equivalent_shape, gen_identical_ladder) Lean 4 theorems over a model of the comparison ladder, ternary logic, BETWEEN/IN/ANY/ALL/IS/CASE and arithmetic, for all coercion profiles and all lists (incl. the empty set a sub-query can produce: any_empty / all_empty), exactness of the float image of integers and of float +, -, * on integers below 2^53 (float_int_*_agree), casts; model tied to /repo by a differential correspondence run (direct library calls and SELECT text) on every run",
     "design_ref": "DESIGN.md section 5, C06",
     "note": "trusted: Lean kernel (axioms propext, Classical.choice, Quot.sound only), harness + driver, Go stdlib conversions (enter as profiles), IEEE-754 hardware (FloatOps parameter)",
     "technique": "Lean 4 machine-checked proof over a hand-written model + differential correspondence with the Go implementation",
@@ -15,6 +15,7 @@ def run(run):
         "strings enter the model with the coercion profile the real value.To* functions report (theorems hold for all profiles)",
         "float + - * / are a FloatOps parameter in the theorems; the driver's round-to-nearest-even instance is validated against the hardware by stream c06 (arith, prof)",
     ]
+    run.regen("cmpfacts", ["go", "run", "-C", "extract/cmpfacts", "."], "Csvq/Gen/CmpFacts.lean")
     run.obligations_for(["Csvq.Props.C06"])
     run.stream("c06", 4000 if q else 200000)
     if not q:
